@@ -645,6 +645,7 @@ func (ls *LanceroSource) launchLanceroReader() {
 	go func() {
 		ticker := time.NewTicker(ls.readPeriod)
 		lastSuccesfulRead := time.Now()
+		discardedBuffer := false // a buffer was released unread; the next block must report a data drop
 		for {
 			select {
 			case <-ls.abortSelf:
@@ -680,7 +681,12 @@ func (ls *LanceroSource) launchLanceroReader() {
 					fmt.Printf("ncols have %v, want %v. nrows have %v, want %v, timeSinceLastSuccesfulRead %v\n",
 						ncols, dev.ncols, nrows, dev.nrows, timeSinceLastSuccesfulRead)
 					dev.card.ReleaseBytes(len(b))
+					discardedBuffer = true
 					continue
+				}
+				if discardedBuffer { // bytes released by an earlier read never reached a block: that is a data drop
+					dataDropDetected = true
+					discardedBuffer = false
 				}
 				firstWord := q
 				// check for dataDrop
